@@ -376,6 +376,28 @@ def _apply_fn(src, w, op, fn, modname):
     text = src.text
     label = f"{modname}::{op['path']}"
     arrow, r0, r1, where, body = src.fn_sig(fn)
+    if op.get('bind'):
+        # names of locals the contract talks about are read off the code (`$BUF` = whatever `let mut X = BytesMut::new()` calls
+        # it), so that renaming a local does not lose the proof
+        btxt = text[toks[body].end:toks[toks[body].match].start]
+        sub = {}
+        for key, rx in op['bind'].items():
+            mo = re.search(rx, btxt)
+            if not mo:
+                raise AnchorLost(f'{src.path}: fn `{op["path"]}`: no local matches `{rx}` (${key})')
+            sub['$' + key] = mo.group(1)
+
+        def subst(x):
+            if isinstance(x, str):
+                for k, v in sub.items():
+                    x = x.replace(k, v)
+                return x
+            if isinstance(x, dict):
+                return {k: subst(v) for k, v in x.items()}
+            if isinstance(x, list):
+                return [subst(v) for v in x]
+            return x
+        op = {k: (v if k == 'bind' else subst(v)) for k, v in op.items()}
     if op.get('attrs'):
         w.insert(toks[fn.qual].start, ' '.join(op['attrs']) + '\n    ', label + '#attr', 'W3')
     if op.get('ret'):
